@@ -55,40 +55,44 @@ theorem shuffle_nibble' (t idx : V128) (i : Fin 16) (h : (idx[i]).toNat < 16) :
 
 /-! ### 1. the 64-bit lane shift -/
 
+theorem foldl_range8 (f : Nat → Nat) :
+    (List.range 8).foldl (fun acc i => acc + f i) 0 = f 0 + f 1 + f 2 + f 3 + f 4 + f 5 + f 6 + f 7 := by
+  simp only [List.range_succ, List.range_zero, List.nil_append, List.cons_append, List.foldl_cons,
+    List.foldl_nil, Nat.zero_add]
+
+/-- the 64-bit lane written out (little endian) -/
 theorem lane64_eq (a : V128) (h : Nat) :
     lane64 a h =
       (a.toArray.getD (8 * h + 0) 0#8).toNat * 256 ^ 0 + (a.toArray.getD (8 * h + 1) 0#8).toNat * 256 ^ 1 +
       (a.toArray.getD (8 * h + 2) 0#8).toNat * 256 ^ 2 + (a.toArray.getD (8 * h + 3) 0#8).toNat * 256 ^ 3 +
       (a.toArray.getD (8 * h + 4) 0#8).toNat * 256 ^ 4 + (a.toArray.getD (8 * h + 5) 0#8).toNat * 256 ^ 5 +
-      (a.toArray.getD (8 * h + 6) 0#8).toNat * 256 ^ 6 + (a.toArray.getD (8 * h + 7) 0#8).toNat * 256 ^ 7 := by
-  have : List.range 8 = [0, 1, 2, 3, 4, 5, 6, 7] := by decide
-  unfold lane64
-  rw [this]
-  simp only [List.foldl_cons, List.foldl_nil, Nat.zero_add]
+      (a.toArray.getD (8 * h + 6) 0#8).toNat * 256 ^ 6 + (a.toArray.getD (8 * h + 7) 0#8).toNat * 256 ^ 7 :=
+  foldl_range8 (fun i => (a.toArray.getD (8 * h + i) 0#8).toNat * 256 ^ i)
+
+theorem nib_aux (x0 x1 x2 x3 x4 x5 x6 x7 : Nat) (b0 : x0 < 256) (b1 : x1 < 256) (b2 : x2 < 256)
+    (b3 : x3 < 256) (b4 : x4 < 256) (b5 : x5 < 256) (b6 : x6 < 256) (b7 : x7 < 256) (j : Nat)
+    (hj : j < 8) :
+    (x0 * 256 ^ 0 + x1 * 256 ^ 1 + x2 * 256 ^ 2 + x3 * 256 ^ 3 + x4 * 256 ^ 4 + x5 * 256 ^ 5 +
+        x6 * 256 ^ 6 + x7 * 256 ^ 7) / 2 ^ 4 / 256 ^ j % 16
+      = [x0, x1, x2, x3, x4, x5, x6, x7][j]! / 16 := by
+  have hcases : j = 0 ∨ j = 1 ∨ j = 2 ∨ j = 3 ∨ j = 4 ∨ j = 5 ∨ j = 6 ∨ j = 7 := by omega
+  rcases hcases with rfl | rfl | rfl | rfl | rfl | rfl | rfl | rfl <;>
+    simp only [List.getElem!_cons_zero, List.getElem!_cons_succ] <;> omega
 
 /-- byte `j` of the 64-bit lane `h`, shifted right by 4 and masked with `0x0f`, is the high
     nibble of byte `8h + j`: nothing of byte `8h + j + 1` survives the mask -/
 theorem lane64_srli4_nibble (a : V128) (h j : Nat) (hj : j < 8) :
     lane64 a h / 2 ^ 4 / 256 ^ j % 16 = (a.toArray.getD (8 * h + j) 0#8).toNat / 16 := by
   rw [lane64_eq]
-  have b0 := (a.toArray.getD (8 * h + 0) 0#8).isLt
-  have b1 := (a.toArray.getD (8 * h + 1) 0#8).isLt
-  have b2 := (a.toArray.getD (8 * h + 2) 0#8).isLt
-  have b3 := (a.toArray.getD (8 * h + 3) 0#8).isLt
-  have b4 := (a.toArray.getD (8 * h + 4) 0#8).isLt
-  have b5 := (a.toArray.getD (8 * h + 5) 0#8).isLt
-  have b6 := (a.toArray.getD (8 * h + 6) 0#8).isLt
-  have b7 := (a.toArray.getD (8 * h + 7) 0#8).isLt
-  generalize (a.toArray.getD (8 * h + 0) 0#8).toNat = x0 at *
-  generalize (a.toArray.getD (8 * h + 1) 0#8).toNat = x1 at *
-  generalize (a.toArray.getD (8 * h + 2) 0#8).toNat = x2 at *
-  generalize (a.toArray.getD (8 * h + 3) 0#8).toNat = x3 at *
-  generalize (a.toArray.getD (8 * h + 4) 0#8).toNat = x4 at *
-  generalize (a.toArray.getD (8 * h + 5) 0#8).toNat = x5 at *
-  generalize (a.toArray.getD (8 * h + 6) 0#8).toNat = x6 at *
-  generalize (a.toArray.getD (8 * h + 7) 0#8).toNat = x7 at *
+  have key := nib_aux _ _ _ _ _ _ _ _
+    (a.toArray.getD (8 * h + 0) 0#8).isLt (a.toArray.getD (8 * h + 1) 0#8).isLt
+    (a.toArray.getD (8 * h + 2) 0#8).isLt (a.toArray.getD (8 * h + 3) 0#8).isLt
+    (a.toArray.getD (8 * h + 4) 0#8).isLt (a.toArray.getD (8 * h + 5) 0#8).isLt
+    (a.toArray.getD (8 * h + 6) 0#8).isLt (a.toArray.getD (8 * h + 7) 0#8).isLt j hj
+  rw [key]
   have hcases : j = 0 ∨ j = 1 ∨ j = 2 ∨ j = 3 ∨ j = 4 ∨ j = 5 ∨ j = 6 ∨ j = 7 := by omega
-  rcases hcases with rfl | rfl | rfl | rfl | rfl | rfl | rfl | rfl <;> omega
+  rcases hcases with rfl | rfl | rfl | rfl | rfl | rfl | rfl | rfl <;>
+    simp only [List.getElem!_cons_zero, List.getElem!_cons_succ]
 
 theorem and_0f_toNat (x : Byte) : (x &&& 0x0f#8).toNat = x.toNat % 16 := by
   rw [BitVec.toNat_and]
@@ -136,7 +140,7 @@ theorem joinBytes_getLsbD (l h : Byte) (j : Nat) :
     · have : 8 ≤ j - 8 := by omega
       simp only [h16, decide_false, Bool.false_and]
       exact (Nat.testBit_lt_two_pow (Nat.lt_of_lt_of_le h.isLt
-        (Nat.pow_le_pow_right (by decide) this)))
+        (Nat.pow_le_pow_right (by decide) this))).symm
 
 theorem joinBytes_xor (l1 l2 h1 h2 : Byte) :
     joinBytes (l1 ^^^ l2) (h1 ^^^ h2) = joinBytes l1 h1 ^^^ joinBytes l2 h2 := by
